@@ -4,7 +4,9 @@ import os
 import shutil
 import tempfile
 
-LETTERS = {1: u"a", 2: u"b", 3: u"c", 4: u"é", 5: u"\U0001F600", 6: u"\U0001F601"}
+LETTERS = {1: u"a", 2: u"b", 3: u"c", 4: u"é", 5: u"\U0001F600", 6: u"\U0001F601",
+           # (codes 7 and 8 are ordered between 3 and 4: QuerySem!LetterKey)
+           7: u"t", 8: u"o"}
 GAPWORD = u"the"
 UNIT = 65536
 
